@@ -39,6 +39,7 @@ def run(chk):
     r064(chk, w)
     r066(chk, w)
     r067(chk, w)
+    r068(chk, w)
 
 
 def _loops_nested(b):
@@ -438,3 +439,48 @@ def r067(chk, w):
     chk.ob("R06.7", "with_tag:stores-argument-unchanged", rows == want,
            "PositionalWeightWithTag::with_tag derives %s; expected a single insert of the unmodified weight vector under (token_id, rel_position) and no other computation: "
            "a shortened / transformed vector loses classes when the weights of a suffix n-gram are zipped onto it" % sorted(rows, key=str), site=C.site(b), sample={"rows": sorted(map(str, rows))})
+
+
+def r068(chk, w):
+    """the scorer variant that can score tags is chosen whenever the predictor has tag models.  Predictor::new hands one
+    (possibly empty) tag n-gram model per tag model to CharScorer::new / TypeScorer::new; predict_tags calls add_tag_scores on
+    every existing scorer as soon as a token has a tag model, and the boundary-only variants answer that call with
+    panic!("unsupported").  So the boundary-only variants may be chosen only when the vector of tag n-gram models is empty."""
+    import re as _re
+    chk.rule("R06.8", "boundary-only scorer variants are chosen only when there is no tag model at all")
+    n = 0
+    for fn in ("vaporetto::char_scorer::CharScorer::new", "vaporetto::type_scorer::TypeScorer::new"):
+        b = w.body(fn)
+        if b is None:
+            if chk.config == "W":
+                chk.undecided("R06.8", "%s:anchor" % fn.split("::")[-2], "%s not found" % fn)
+            continue
+        tagp = [i for i in range(1, b.arg_count + 1) if "TagNgramModel" in b.locals[i]["ty"]]
+        if not tagp:
+            continue   # configuration without tag prediction
+        chk.fn(fn)
+        it = absint.Interp(w, b, models=effects.EXTRA_MODELS, summaries=C.summaries(w))
+        rows = {}
+        for o in it.run(0):
+            if o.kind != "return":
+                continue
+            v = o.value_at((("L", 0),))
+            # the scorer variant constructed on this path: the call <Variant>::new
+            ctor = [e[2] for e in o.trace if e[0] == "call" and _re.search(r"(Char|Type)ScorerBoundary\w*::new$", e[2] or "")]
+            if not ctor:
+                continue
+            kind = "tag" if "Tag" in ctor[-1].split("::")[-2] else "boundary-only"
+            dec = "?"
+            for e in o.trace:
+                if e[0] == "call" and (e[2] or "").endswith("Vec::is_empty") and e[3] and e[3][0][0] == "ref" and e[3][0][1] == (("L", tagp[0]),) or \
+                        (e[0] == "call" and (e[2] or "").endswith("Vec::is_empty") and e[3] and e[3][0][0] == "ref" and e[3][0][1] == (("A", tagp[0]),)):
+                    r = e[5] if len(e) > 5 and e[5] is not None else None
+                    dec = {True: "empty", False: "non-empty"}.get(r[1] if r and r[0] == "b" else None, "?")
+            rows.setdefault(kind, set()).add(dec)
+        n += len(rows)
+        short = fn.split("::")[-2]
+        chk.ob("R06.8", "%s:variant-by-tag-model-count" % short, rows == {"tag": {"non-empty"}, "boundary-only": {"empty"}},
+               "%s chooses the scorer variant as %s (decision = emptiness of the tag n-gram model vector); expected the tag-capable variant iff that vector is non-empty: "
+               "a boundary-only scorer in a predictor with tag models panics (\"unsupported\") in fill_tags" % (fn, {k: sorted(v) for k, v in rows.items()}),
+               site=C.site(b), sample={"ctor": short, "rows": {k: sorted(v) for k, v in rows.items()}})
+    chk.floor("R06.8", "variant rows", n, 4, other=0)
